@@ -1,0 +1,37 @@
+//! Verification hooks, compiled only under `--cfg mscript_verif`.
+//!
+//! Every hook is inert unless its environment variable is set, and none of them changes
+//! what the interpreter computes.
+
+use std::cell::RefCell;
+use std::fs::{File, OpenOptions};
+use std::io::{BufWriter, Write};
+
+thread_local! {
+    static TRACE: RefCell<Option<Option<BufWriter<File>>>> = const { RefCell::new(None) };
+}
+
+/// H1: when `MSCRIPT_VERIF_TRACE=<file>` is set, append one record
+/// `function \t ip \t opcode \t call-stack depth \t operand-stack length`
+/// before each executed instruction.
+pub fn trace_instruction(function: &str, ip: usize, opcode: u8, frames: usize, operands: usize) {
+    TRACE.with(|cell| {
+        let mut slot = cell.borrow_mut();
+        if slot.is_none() {
+            let writer = std::env::var_os("MSCRIPT_VERIF_TRACE").and_then(|path| {
+                OpenOptions::new()
+                    .create(true)
+                    .append(true)
+                    .open(path)
+                    .ok()
+                    .map(BufWriter::new)
+            });
+            *slot = Some(writer);
+        }
+        if let Some(Some(writer)) = slot.as_mut() {
+            let _ = writeln!(writer, "{function}\t{ip}\t{opcode}\t{frames}\t{operands}");
+            // the process may end through `exit`/panic: keep the file current
+            let _ = writer.flush();
+        }
+    });
+}
